@@ -104,16 +104,35 @@ func c35LengthChanging(q string) bool {
 	return false
 }
 
+// c35ASCIIControl replaces every rune whose lower-case form has another UTF-8 length by 'z's of the
+// same byte length: the same text without the length change.
+func c35ASCIIControl(q string) string {
+	var b strings.Builder
+	for _, r := range q {
+		if r != utf8.RuneError && utf8.RuneLen(unicode.ToLower(r)) != utf8.RuneLen(r) {
+			b.WriteString(strings.Repeat("z", utf8.RuneLen(r)))
+		} else {
+			b.WriteRune(r)
+		}
+	}
+	return b.String()
+}
+
+// c35PanicKey classifies a panic by mechanism: the ToLower length change is blamed only when the text
+// holds a length-changing rune, the panic is a slice-bounds panic, and the control text (same bytes
+// lengths, ASCII instead of those runes) does not panic.
 func c35PanicKey(q string, res c35Result) string {
 	slice := strings.Contains(res.PanicMsg, "slice bounds out of range") || strings.Contains(res.PanicMsg, "index out of range")
-	switch {
-	case slice && c35LengthChanging(q):
-		return "tolower-length-change-slice-panic"
-	case slice:
-		return "slice-panic:" + res.Site
-	default:
-		return "panic:" + res.Site
+	if strings.Contains(res.PanicMsg, "slice bounds out of range") && c35LengthChanging(q) {
+		ctl := c35ASCIIControl(q)
+		if r := c35Parse(ctl); !r.Panicked {
+			return "tolower-length-change-slice-panic"
+		}
 	}
+	if slice {
+		return "slice-panic:" + res.Site
+	}
+	return "panic:" + res.Site
 }
 
 // ---------- comparing parsed queries ----------
